@@ -338,7 +338,37 @@ def run_shard(shard, ctx):
     bits_sweep(shard, ctx)
 
 
+def replay_sweep(case, ctx):
+    from bisturi.pattern_matching import Any, filter as pfilter
+    fam = case["fam"]
+    corpus = [x for x in case.get("corpus", []) if isinstance(x, bytes)]
+    live = decl.open_live(ctx, fam, {})
+    if live is None:
+        return
+    try:
+        kw = dict(case["fixed"])
+        kw.update({n: Any() for n in case["anys"]})
+        ctx.ev()
+        try:
+            pat = live.root(**kw)
+            rx = pat.as_regular_expression()
+            slow = [p.pack() for p in pfilter(pat, corpus, filter_with_regexp_first=False)]
+            fast = [p.pack() for p in pfilter(pat, corpus, filter_with_regexp_first=True)]
+        except Exception as e:
+            ctx.violation(dict(case, sig="filter-raises:" + type(e).__name__, desc="replayed bits sweep raised %r" % (e,)))
+            return
+        if slow != fast:
+            lost = [x for x in slow if x not in fast]
+            ctx.violation(dict(case, sig="prefilter-rejects-matching-packet" if lost else "prefilter-adds-packet",
+                               desc="bits sweep fixed=%r: without regexp %d packets, with regexp %d; regexp=%r" % (case["fixed"], len(slow), len(fast), rx.pattern)))
+        ctx.nt("r1"); ctx.nt("r2")
+    finally:
+        live.close()
+
+
 def replay(case, ctx):
+    if case.get("stratum") == "bits-sweep":
+        return replay_sweep(case, ctx)
     c = {"fam": case["fam"], "cg": case.get("cg") or {}, "target": case["target"], "fixed": case["fixed"], "anys": case["anys"],
          "others": [], "changed": [], "random": [x for x in case.get("corpus", []) if isinstance(x, bytes)]}
     run_case(ctx, c)
